@@ -3,6 +3,7 @@
 package checks
 
 import (
+	"time"
 	"fmt"
 	"math/big"
 	"math/rand"
@@ -754,7 +755,7 @@ func c03Nonce(r *report.R, id string) {
 			r.Nontriv("replay-of-executed-tx|" + acctState)
 		}
 		// a third party turns the account into a vesting account (no consent needed)
-		if acctState == "plain" && cur > 0 && rng.Intn(6) == 0 {
+		if acctState == "plain" && cur > 0 && rng.Intn(4) == 0 {
 			x := n.Accounts[3]
 			lock := sdkvesting.Periods{{Length: 1000, Amount: vn.Coins(5)}}
 			res := n.Deliver(n.CosmosTx(vn.CosmosArgs{Msgs: []sdk.Msg{vestingtypes.NewMsgConvertIntoVestingAccount(x.Addr, a.Addr, n.Time.UTC(), lock, lock, false, false, nil)}, Gas: 500000, Fee: vn.Coins(500000 * 2000)}, x))
@@ -766,6 +767,28 @@ func c03Nonce(r *report.R, id string) {
 					break
 				}
 			}
+		}
+		// once everything has vested the holder turns the account back into an ordinary one
+		if acctState == "converted-into-vesting" && rng.Intn(3) == 0 {
+			n.EndBlock()
+			n.Commit()
+			n.BeginBlock(vn.BlockOpts{Dt: 2000 * time.Second})
+			sq := cur
+			tx := n.CosmosTx(vn.CosmosArgs{Msgs: []sdk.Msg{vestingtypes.NewMsgConvertVestingAccount(a.Addr)}, Gas: 500000, Fee: vn.Coins(500000 * 2000), Seq: &sq}, a)
+			res := n.Deliver(tx)
+			got := n.Seq(a.Addr)
+			trace = append(trace, fmt.Sprintf("the holder converts the vesting account back: code=%d seq %d->%d", res.Code, cur, got))
+			if res.Code == 0 {
+				acctState = "converted-back-from-vesting"
+				accepted = append(accepted, tx)
+				if got != cur+1 {
+					r.Violation(id, "sequence-changed-by-account-conversion|back", fmt.Sprintf("sequence %d became %d (not %d) when the vesting account was converted back", cur, got, cur+1), trace)
+					break
+				}
+				r.Nontriv("account-conversion|back-from-vesting|sequence-kept")
+				r.Count("accounts_converted_back_from_vesting", 1)
+			}
+			cur = got
 		}
 		eth := rng.Intn(3) > 0
 		var nonces []uint64
